@@ -506,28 +506,45 @@ class C03(PropertyCheck):
         "QipVerif.C03.resolve_labels_true",
         "QipVerif.C03.rules_label_their_angles",
     ]
-    technique = ("Lean 4: rule tables regenerated from the source, each rule's exact unitary identity decided by the kernel "
-                 "in Z[zeta16][1/2] (decide +kernel); parametric rules proved over C for all angles; list-level theorems on "
-                 "the model of resolve_gates by induction; model/implementation correspondence of the control flow")
+    technique = ("Lean 4: rule tables (gates, qubit selectors, angles, labels) regenerated from the source, each fixed-angle rule's "
+                 "exact unitary identity decided by the kernel in Z[zeta16][1/2] (decide +kernel); parametric rules proved over C "
+                 "for all angles; the model of resolve_gates with every field of the emitted gate objects refines the model on "
+                 "(name, qubits, angle) (erasure), and list-level theorems are proved by induction over it; model/implementation "
+                 "correspondence of the control flow on every attribute of every emitted object; source variants read from the tree")
     level_text = ("Every _gate_*/_basis_* rule of the current source is regenerated into Lean and its soundness (same unitary, "
                   "global phase included) is a kernel-checked theorem; the parametric rules (PHASEGATE, elimination of the third "
-                  "rotation, Pauli substitution) are proved for all angles over C; the output-alphabet and refusal theorems hold "
-                  "for all circuits and all basis specifications by induction over the model of resolve_gates, which is compared "
-                  "gate-for-gate with the implementation (exhaustively for every placed gate x every basis spec on 3 qubits).")
+                  "rotation, Pauli substitution) are proved for all angles over C. For every register size, basis specification "
+                  "and circuit of constructible library gates with arbitrary real angles the model of resolve_gates returns a circuit "
+                  "with exactly the same complex unitary (resolve_den), also under every assignment of the classical bits when "
+                  "gates are classically controlled (resolve_den_cond: resolution commutes with execution); the result stays in the "
+                  "basis (resolve_names); it raises iff some gate is not expressible, and then NotImplementedError (resolve_refuses_iff), "
+                  "iff a measurement is present (resolve_refuses_measurement); a string basis is the one-element list and a list is "
+                  "read as a set (basis_string_is_list, resolve_basis_perm); every label k*pi/m written by a rule is the angle of its "
+                  "gate and every angle a rule writes is labelled (resolve_labels_true, rules_label_their_angles). The model is compared "
+                  "with the implementation on every attribute of every emitted gate object (exhaustively for every placed gate x every "
+                  "basis spec on 3 qubits, plain and as a labelled classically controlled gate).")
     level_note = ("Trusted: Lean kernel (propext, Classical.choice, Quot.sound); the exact gate library gateE (validated exhaustively "
                   "against the gate functions by C09's correspondence); behavioural extraction of the rule templates "
-                  "(py/translate/decomp.py, validated on random placements/angles each run); the lifting of a rule identity from "
-                  "its canonical placement to every register size and placement uses the embedding algebra of C08 "
-                  "(Lemmas/EmbedAlg.lean) — see notes in DESIGN.md for which composition steps are proved.")
+                  "(py/translate/decomp.py: probes carry a value in every field; validated on random placements/angles each run); "
+                  "the hand model of the control flow (Pauli substitution, dispatch, two-qubit pass, elimination, measurement and basis "
+                  "checks) is tied to the code by the correspondence only. Side conditions: resolve_den asks that RX RY RZ X Y Z have "
+                  "no controls - what their constructors enforce (compared with the constructors each run); resolve_den_partial keeps "
+                  "phOK for FIXED PHASEGATE angles (odd multiples of pi/8 are covered by resolve_den through a symbolic angle). "
+                  "Model variants read from the tree: fixes/C03-2 (classical condition handed on), fixes/C03-3 (string basis is one "
+                  "name); on the unrepaired tree the sweeps leave out the two recorded classes and the counter-example theorems "
+                  "(condition_dropped_counterexample, substring_passthrough_counterexample) state the violation. Observation kept as "
+                  "is: the phase marker of _gate_PHASEGATE carries the gate's label at half its angle (named in resolve_labels_true).")
     trusted_base = [
         "Lean 4.33 kernel; axioms propext, Classical.choice, Quot.sound; decide +kernel for the finite rule tables",
-        "py/translate/decomp.py (behavioural extraction of rule templates: linear in the angle, qubits only by reference), validated every run",
+        "py/translate/decomp.py (behavioural extraction of rule templates and labels: linear in the angle, qubits only by reference, every other field plain), validated every run",
         "Model/Circuit.lean:gateE exact gate matrices (tied to the code by C09)",
-        "py/props/c03.py harness",
+        "py/props/c03.py harness (incl. source_variant: one classically controlled probe per stage of resolve_gates, one string-basis probe)",
     ]
-    assumptions = ["rules are uniform in placement and affine in the input angle (checked on random instances every run)"]
-    rule = ("case = (register size, gate list with placements and exact/symbolic angles, basis specification); distinct by "
-            "canonical JSON; non-trivial = at least one gate is rewritten or refused")
+    assumptions = ["rules are uniform in placement and affine in the input angle (checked on random instances every run)",
+                   "a circuit handed to resolve_gates has no measurement (it is refused otherwise), so the classical bits do not change during a run"]
+    rule = ("case = (register size, gate list with placements, exact/symbolic angles, labels, classical conditions, styles, "
+            "measurements, user gates; basis specification); distinct by canonical JSON; non-trivial = at least one gate is "
+            "rewritten or refused; plus one case per (one-qubit gate name, controls) for the constructors")
 
     # ---------------------------------------------------------------------------------
     def regenerate(self, ctx):
